@@ -2,6 +2,8 @@ SPECIFICATION TSpec
 CONSTANTS
   Cap = 2
   MaxId = 40
+  Kinds = {"S", "N", "Q", "A"}
+  BatchSizes = {1, 2, 3}
   Defects = {}
 CHECK_DEADLOCK FALSE
-INVARIANTS Accounting CountMatches
+INVARIANTS Accounting CountMatches BatchSenders
